@@ -120,13 +120,29 @@ class SymExec:
             if isinstance(n, ast.Name) and isinstance(n.ctx, ast.Load) and n.id in self.module_consts and \
                n.id not in self.local_names:
                 return self.module_consts[n.id]
-            if self.bind_loops and isinstance(n, ast.Call) and isinstance(n.func, ast.Name) and n.func.id == 'map' \
+            if self.bind_loops and isinstance(n, ast.Call) and (dotted(n.func) or '') in ('map', 'starmap', 'itertools.starmap') \
                and len(n.args) == 2 and not n.keywords and 'map' not in env:
-                # map(f, X) is (f(x) for x in X)
-                it = self.subst(n.args[1], env)
-                if isinstance(it, (ast.Tuple, ast.List)) and len(it.elts) <= 8 and not any(isinstance(x, ast.Starred) for x in it.elts):
-                    f_ = self.subst(n.args[0], env)
-                    return ast.List(elts=[simplify(ast.Call(func=f_, args=[x], keywords=[])) for x in it.elts], ctx=ast.Load())
+                # map(f, X) is (f(x) for x in X); starmap(f, X) is (f(*x) for x in X)
+                star = not (isinstance(n.func, ast.Name) and n.func.id == 'map')
+                it = simplify(self.subst(n.args[1], env))
+                f_ = self.subst(n.args[0], env)
+
+                def app(x):
+                    arg = ast.Starred(value=x, ctx=ast.Load()) if star else x
+                    return simplify(ast.Call(func=f_, args=[arg], keywords=[]))
+                if isinstance(it, (ast.Tuple, ast.List)) and len(it.elts) <= 8 and \
+                   not any(isinstance(x, ast.Starred) and not _is_each(x.value) for x in it.elts):
+                    elts = []
+                    for x in it.elts:
+                        if isinstance(x, ast.Starred):
+                            elts.append(ast.Starred(value=ast.Call(func=ast.Name(id='_each', ctx=ast.Load()),
+                                                                   args=[app(x.value.args[0]), x.value.args[1]], keywords=[]),
+                                                    ctx=ast.Load()))
+                        else:
+                            elts.append(app(x))
+                    return ast.List(elts=elts, ctx=ast.Load())
+                if star:
+                    return None
                 p_ = Path(dict(env), ())
                 tgt = ast.Name(id='_m%d' % self._nloops, ctx=ast.Store())
                 self._bind_loop(tgt, it, p_)
@@ -493,6 +509,16 @@ class SymExec:
             p.env[dotted(target)] = value
             p.stores.append((key, value, st))
             p.events.append(('store', key, value, st, p.loops))
+        elif isinstance(target, (ast.Tuple, ast.List)) and sum(1 for t in target.elts if isinstance(t, ast.Starred)) == 1:
+            # a, *rest = X  /  *init, last = X
+            k = [i for i, t in enumerate(target.elts) if isinstance(t, ast.Starred)][0]
+            after = len(target.elts) - k - 1
+            for i, t in enumerate(target.elts[:k]):
+                self._assign(t, simplify(ast.Subscript(value=value, slice=ast.Constant(value=i), ctx=ast.Load())), p, st)
+            for j, t in enumerate(target.elts[k + 1:]):
+                self._assign(t, simplify(ast.Subscript(value=value, slice=ast.Constant(value=-(after - j)), ctx=ast.Load())), p, st)
+            sl = ast.Slice(lower=ast.Constant(value=k) if k else None, upper=ast.Constant(value=-after) if after else None, step=None)
+            self._assign(target.elts[k].value, simplify(ast.Subscript(value=value, slice=sl, ctx=ast.Load())), p, st)
         elif isinstance(target, (ast.Tuple, ast.List)):
             if isinstance(value, (ast.Tuple, ast.List)) and len(value.elts) == len(target.elts):
                 for t, v in zip(target.elts, value.elts):
@@ -1556,10 +1582,17 @@ def _stdlib_algebra(n):
             inner = ast.Call(func=ast.Name(id='_each', ctx=ast.Load()),
                              args=[ast.Subscript(value=a.args[0], slice=k, ctx=ast.Load()), a.args[0]], keywords=[])
             return ast.Call(func=ast.Name(id='_each', ctx=ast.Load()), args=[inner, a.args[1]], keywords=[])
-        if isinstance(a, (ast.List, ast.Tuple)) and not any(isinstance(x, ast.Starred) for x in a.elts):
+        if isinstance(a, (ast.List, ast.Tuple)) and not any(
+                isinstance(x, ast.Starred) and not (_is_each(x.value) and isinstance(x.value.args[0], (ast.List, ast.Tuple)))
+                for x in a.elts):
             elts = []
             for x in a.elts:
-                if isinstance(x, (ast.List, ast.Tuple)):
+                if isinstance(x, ast.Starred):
+                    # *_each([e1, e2], IT): for every element of IT the entries e1, e2
+                    for y in x.value.args[0].elts:
+                        elts.append(ast.Starred(value=ast.Call(func=ast.Name(id='_each', ctx=ast.Load()),
+                                                               args=[y, x.value.args[1]], keywords=[]), ctx=ast.Load()))
+                elif isinstance(x, (ast.List, ast.Tuple)):
                     elts += list(x.elts)
                 else:
                     elts.append(ast.Starred(value=x, ctx=ast.Load()))
@@ -1638,6 +1671,16 @@ def simplify(e):
            n.func.attr in ('add', 'sub', 'mul', 'truediv'):
             op_ = {'add': ast.Add, 'sub': ast.Sub, 'mul': ast.Mult, 'truediv': ast.Div}[n.func.attr]()
             return ast.BinOp(left=n.args[0], op=op_, right=n.args[1])
+        if isinstance(n, (ast.List, ast.Tuple)) and any(isinstance(x, ast.Starred) and isinstance(x.value, (ast.List, ast.Tuple))
+                                                     for x in n.elts):
+            # [a, *[b, c], d] is [a, b, c, d]
+            elts = []
+            for x in n.elts:
+                if isinstance(x, ast.Starred) and isinstance(x.value, (ast.List, ast.Tuple)):
+                    elts += list(x.value.elts)
+                else:
+                    elts.append(x)
+            return simplify(n.__class__(elts=elts, ctx=ast.Load()))
         if isinstance(n, ast.BinOp) and isinstance(n.op, ast.Mult) and isinstance(n.left, ast.List) and \
            isinstance(n.right, ast.Constant) and isinstance(n.right.value, int) and not isinstance(n.right.value, bool) and \
            0 <= n.right.value <= 8 and len(n.left.elts) * n.right.value <= 16 and \
